@@ -137,7 +137,13 @@ func (l *lexer) nextToken(r rune, text string) (tok Token, _ bool) {
 
 func scanSpace(s *scanner.Scanner) {
 	for {
-		if ch := s.Peek(); !unicode.IsSpace(ch) {
+		ch := s.Peek()
+		if ch == '#' {
+			// Comment is insignificant too, skip it.
+			lexerql.ScanComment(s)
+			continue
+		}
+		if !unicode.IsSpace(ch) {
 			return
 		}
 		s.Next()
